@@ -96,5 +96,24 @@ SPEC = {
 }
 
 
+def big_structures(ctx):
+    """structures of thousands of bars (tens of thousands of equations): the comparison with an independent superposition of
+    the slice matrices and nodal loads is made inside the harness process (harness/cmd/dump/big.go)"""
+    from .. import common as C
+    sizes = [3700] if ctx.tier == "quick" else [3700, 5200, 800]
+    cases = [{"Text": G.big_beam_text(n, loaded_every=37), "Weight": k % 2 == 1, "Solve": False} for k, n in enumerate(sizes)]
+    outs = C.dump("bigcheck", cases, timeout=1800)
+    for c, o in zip(cases, outs):
+        what = "a continuous beam of %d bars (%s equations)" % (o.get("Bars") or 0, o.get("Equations"))
+        if o.get("Panic"):
+            ctx.violation("%s: assembling panicked: %s" % (what, o["Panic"][:200]), {"text_head": c["Text"][:400], "how": "tools.gen_struct.big_beam_text + harness/bin/dump bigcheck"})
+        elif o.get("KMismatch") or o.get("FMismatch"):
+            ctx.violation("%s: %d stiffness terms and %d load entries differ from the superposition of the slices: %s" % (what, o["KMismatch"], o["FMismatch"], "; ".join(o.get("First") or [])),
+                          {"bars": o.get("Bars"), "equations": o.get("Equations"), "first": o.get("First"), "how": "tools.gen_struct.big_beam_text(%d, loaded_every=37) + harness/bin/dump bigcheck" % o.get("Bars")})
+    ctx.log("%d structures of thousands of bars assembled and compared inside the harness (%s equations)" % (len(cases), ", ".join(str(o.get("Equations")) for o in outs)))
+    return [o.get("Equations") for o in outs]
+
+
 def run(ctx):
     core.run(ctx, SPEC)
+    ctx.coverage["large_structures_equations"] = big_structures(ctx)
